@@ -223,6 +223,33 @@ impl LuaGreenNodeBuilder<'_> {
 
     #[inline]
     pub fn finish(mut self, text: &str) -> GreenNode {
+        // An unbalanced event list (a node closed twice or never closed on an error path) must not
+        // lose text: close the nodes that are still open, then let the root adopt every element
+        // that is left at the top level.
+        while !self.parents.is_empty() && !self.children.is_empty() {
+            self.finish_node();
+        }
+        if self.children.len() > 1 {
+            let rest = self.children.split_off(1);
+            let first = self.children[0];
+            match &mut self.elements[first] {
+                LuaGreenElement::Node {
+                    kind: LuaSyntaxKind::Chunk,
+                    children,
+                } => children.extend(rest),
+                _ => {
+                    let mut all = vec![first];
+                    all.extend(rest);
+                    let pos = self.elements.len();
+                    self.elements.push(LuaGreenElement::Node {
+                        kind: LuaSyntaxKind::Chunk,
+                        children: all,
+                    });
+                    self.children[0] = pos;
+                }
+            }
+        }
+
         if let Some(root_pos) = self.children.first() {
             let is_chunk_root = matches!(
                 self.elements[*root_pos],
